@@ -221,3 +221,11 @@ def _short(x, lim=160):
 
 def short(x, lim=300):
     return _short(x, lim)
+
+
+def msg(e, lim=160):
+    """Exception text for reports and digests, with memory addresses removed (a message
+    such as "... applying <function f at 0x7f...>" differs from process to process)."""
+    import re
+
+    return re.sub(r"0x[0-9a-fA-F]+", "0x?", str(e))[:lim]
